@@ -67,6 +67,13 @@ CLAIMED.update({
             "7 C07"),
 })
 
+CLAIMED.update({
+    "C05": ("Coq proof (atom-string emitters + sign clean-up + maximal-munch lexer + precedence parser evaluated symbolically; 64 sign/zero classes x every gas-phase type discharged by computation and ring reasoning over R, for all magnitudes and all interpretations of the library functions) + exact-text correspondence + tokenizer / g++ / numeric-law oracle",
+            "Theorems in Props/C05.v: for KIDA formulae 1-5, UMIST two-body / photo / cosmic-ray proton / cosmic-ray photon, Leeds types 1-4, 11, 12 (with self-shielding), UCLCHEM two-body / cosmic ray / cosmic-ray photon / photo (with the CO special case) and the native types, the emitted text - after the sign clean-up, lexed with C's maximal munch and parsed with C precedence - denotes the database's law for every value of |alpha|, |beta|, |gamma|, each of the 4x4x4 sign/zero classes (+, -, 0.0, -0.0) and every value of temperature, extinction, ionisation rate ... (any interpretation with pow(x,0)=1, exp(0)=1, in particular the real functions); formula 6 and unknown codes are refused; every emitted string parses and holds no fused operator. The type codes and the presence of the clean-up in the native class are regenerated from /repo. Tied to rateexpr() by exact comparison of the text for all classes and several magnitude shapes.",
+            "The bridge between Python's str.replace on characters and the model's replace on atom strings (valid when a magnitude has no two adjacent signs and is fenced by digits) is sampled by the exact-text correspondence, not proved; the reference laws are a transcription; inf/nan coefficients excluded; floating-point evaluation is outside the theorems (numeric oracle uses a relative tolerance).",
+            "7 C05"),
+})
+
 NOT_YET = {}
 
 
